@@ -37,6 +37,11 @@ def pre_build(ctx):
 
 def fmt_esd(rng, v, nd):
     s = '%.*f' % (nd, v)
+    if rng.random() < 0.12 and float(s) != 0:
+        # the same rounded value in exponent notation (e or E, with or without sign and leading zero); an esd, if any, follows the exponent
+        m, e = ('%.*e' % (nd + 3, float(s))).split('e')
+        m = m.rstrip('0').rstrip('.') if '.' in m else m
+        s = m + rng.choice(['e', 'E']) + rng.choice(['%+03d' % int(e), '%d' % int(e), '%+d' % int(e)])
     if rng.random() < 0.5:
         s += '(%d)' % rng.randint(1, 99)
     return s
